@@ -56,7 +56,10 @@ type Decoder interface {
 //
 // The "nil" tag applies to pointer-typed fields and changes the decoding
 // rules for the field such that input values of size zero decode as a nil
-// pointer. This tag can be useful when decoding recursive types.
+// pointer. This tag can be useful when decoding recursive types. The empty
+// value must be of the kind that Encode writes for a nil pointer of the
+// field's type: the empty string for pointers to byte arrays, byte slices,
+// integers, booleans and strings, the empty list for all other types.
 //
 //     type StructWithEmptyOK struct {
 //         Foo *[20]byte `rlp:"nil"`
@@ -451,8 +454,14 @@ func makeOptionalPtrDecoder(typ reflect.Type) (decoder, error) {
 	if err != nil {
 		return nil, err
 	}
+	nilKind := nilKindOf(etype)
 	dec := func(s *Stream, val reflect.Value) (err error) {
 		kind, size, err := s.Kind()
+		if err == nil && size == 0 && kind != Byte && kind != nilKind {
+			// only the empty value that the encoder writes for a nil pointer of
+			// this type stands for nil: one value, one encoding.
+			return &decodeError{msg: fmt.Sprintf("wrong kind of empty value (got %v, want %v)", kind, nilKind), typ: typ}
+		}
 		if err != nil || size == 0 && kind != Byte {
 			// rearm s.Kind. This is important because the input
 			// position must advance to the next value even though
@@ -472,6 +481,21 @@ func makeOptionalPtrDecoder(typ reflect.Type) (decoder, error) {
 		return err
 	}
 	return dec, nil
+}
+
+// nilKindOf returns the kind of the empty value which the encoder writes for a
+// nil pointer to typ (see makePtrWriter): the empty string for byte arrays, byte
+// slices, integers, booleans and strings, the empty list for everything else.
+func nilKindOf(typ reflect.Type) Kind {
+	k := typ.Kind()
+	if k == reflect.Ptr {
+		return nilKindOf(typ.Elem())
+	}
+	if isUint(k) || k == reflect.Bool || k == reflect.String ||
+		(k == reflect.Array || k == reflect.Slice) && isByte(typ.Elem()) {
+		return String
+	}
+	return List
 }
 
 var ifsliceType = reflect.TypeOf([]interface{}{})
